@@ -148,9 +148,21 @@ func genFailing(r *core.Rand, h *gen.Hist, cause string) *failStmt {
 		fs.st = &proto.Stmt{Kind: "create", Table: name, Defs: []proto.ColDef{{Name: "x", Type: "int"}, {Name: "y", Type: "varchar", Len: 10}}}
 	case "create-length-out-of-range":
 		name := fmt.Sprintf("fresh%d", r.Intn(1000))
-		defs := []proto.ColDef{{Name: "a", Type: "int"}, {Name: "b", Type: "varchar", Len: 20}, {Name: "c", Type: "varchar", Len: 3000000000 + int64(r.Intn(100))}}
-		if r.Bool() {
-			defs = defs[2:]
+		// the column with the out-of-range length at any position, among
+		// columns with shorter and longer names
+		names := []string{"a", "bb", "description", "id", "x1", "somewhat_longer_name"}
+		nd := r.Range(1, 5)
+		bad := r.Intn(nd)
+		var defs []proto.ColDef
+		for i := 0; i < nd; i++ {
+			d := proto.ColDef{Name: names[(i+r.Intn(6))%6] + fmt.Sprint(i), Type: []string{"int", "varchar", "boolean", "bigint"}[r.Intn(4)]}
+			if d.Type == "varchar" {
+				d.Len = int64(r.Range(1, 255))
+			}
+			if i == bad {
+				d.Type, d.Len = "varchar", 2147483648+int64(r.Intn(1000))*int64(r.Intn(1000000))
+			}
+			defs = append(defs, d)
 		}
 		fs.st = &proto.Stmt{Kind: "create", Table: name, Defs: defs}
 	case "update-" + model.FailSize:
